@@ -27,7 +27,7 @@ import (
 )
 
 const c12fRule = "TestC12Faults: directory store (every collection switch on, grace period off, idle ticker); history of 4-14 requests over 2 repositories from {monolithic blob POST, POST+PATCH+PUT, POST+PUT, " +
-	"mount, upload cancel, image PUT by tag / by digest, index PUT, artifact PUT, tag delete, manifest delete, blob delete, collection of a repository, store-wide collection pass, tag list, manifest GET, referrers GET}; " +
+	"mount, upload cancel, image PUT by tag / by digest, index PUT, artifact PUT, tag delete, manifest delete, blob delete, collection of a repository, store-wide collection pass, tag list, manifest GET, referrers GET, restart (Close + New on the directory)}; " +
 	"the history is run once without fault to count its mutating file-system calls N, then on a fresh directory with the k-th call (k uniform in 1..N) failing with EIO, optionally a second one later; " +
 	"oracle = every request of the history and of a fixed epilogue (tag list, blob HEAD, blob push, manifest push on both repositories, collection) returns within the watchdog (3 s + inspection of the goroutine dump for a " +
 	"goroutine of the registry blocked on a mutex, 30 s otherwise), and Close returns; non-trivial = a fault was delivered inside a request and at least one later request addressed the same repository; distinct = (history, k)"
@@ -69,7 +69,7 @@ func c12fHistory(t *rapid.T) []c12fStep {
 		ii := rapid.IntRange(0, 2).Draw(t, "image")
 		tag := rapid.SampledFrom([]string{"t1", "t2"}).Draw(t, "tag")
 		kind := rapid.SampledFrom([]string{"blobPost", "blobPost", "blobChunked", "blobChunked", "blobPostPut", "mount", "uploadCancel", "imageByTag", "imageByTag", "imageByDigest", "indexPut", "artifactPut",
-			"tagDelete", "manifestDelete", "blobDelete", "collect", "collectAll", "tagList", "manifestGet", "referrers"}).Draw(t, "kind")
+			"tagDelete", "manifestDelete", "blobDelete", "collect", "collectAll", "tagList", "manifestGet", "referrers", "restart", "restart", "restart"}).Draw(t, "kind")
 		s := c12fStep{name: fmt.Sprintf("%s %s layer=%d image=%d tag=%s", kind, rn, li, ii, tag), repo: rn}
 		switch kind {
 		case "blobPost":
@@ -256,6 +256,9 @@ func c12fHistory(t *rapid.T) []c12fStep {
 			s.run = func(h *olareg.Server) string {
 				return fmt.Sprint(doReq(h, "GET", "/v2/"+rn+"/manifests/"+tag, nil, hdr("Accept", acceptAll)).code)
 			}
+		case "restart":
+			// run stays nil: the runner closes the server and opens a new one on the directory (everything is loaded again)
+			s.name = "restart"
 		case "referrers":
 			s.run = func(h *olareg.Server) string {
 				_, sd := img(0, nil, "")
@@ -350,36 +353,58 @@ func c12fProperty(t *rapid.T, st *Stats) {
 	h0 := olareg.New(c12fConf(root0))
 	for _, s := range steps {
 		s := s
+		if s.run == nil {
+			_ = h0.Close()
+			h0 = olareg.New(c12fConf(root0))
+			continue
+		}
 		if !withWatchdog(30*time.Second, func() { _ = s.run(h0) }) {
 			vfs.Kill(root0)
 			fail("request-stuck", "without any fault, %q did not return", s.name)
 		}
 	}
-	total := vfs.MutCount()
+	total, totalReads := vfs.MutCount(), vfs.ReadCount()
 	_ = h0.Close()
 	if total == 0 {
 		st.Case([]string{"history without mutating call"}, false)
 		return
 	}
 	// ---- run 2: the k-th mutating call fails
-	k := rapid.IntRange(1, total).Draw(t, "faultAt")
+	// the fault: a mutating call (write side) or a reading call (open, stat, readfile, readdir) of the history
+	readFault := totalReads > 0 && rapid.IntRange(0, 2).Draw(t, "readFault") == 0
+	limit := total
+	if readFault {
+		limit = totalReads
+	}
+	k := rapid.IntRange(1, limit).Draw(t, "faultAt")
 	k2 := 0
-	if rapid.IntRange(0, 3).Draw(t, "secondFault") == 0 {
+	if !readFault && rapid.IntRange(0, 3).Draw(t, "secondFault") == 0 {
 		k2 = k + rapid.IntRange(1, 12).Draw(t, "secondFaultAfter")
 	}
 	root := tmp + "/fault"
 	vfs.Reset(root, true)
-	vfs.FailAt(k)
+	if readFault {
+		vfs.FailReadAt(k)
+	} else {
+		vfs.FailAt(k)
+	}
 	h := olareg.New(c12fConf(root))
-	trace = append(trace, fmt.Sprintf("%d mutating file-system calls without fault; fault at call %d (second at %d)", total, k, k2))
+	trace = append(trace, fmt.Sprintf("%d mutating and %d reading file-system calls without fault; fault at %s call %d (second at %d)", total, totalReads, map[bool]string{true: "reading", false: "mutating"}[readFault], k, k2))
 	faultStep, laterSameRepo := -1, false
 	faultOp := ""
 	for i, s := range steps {
 		s := s
-		before := vfs.MutCount()
+		before := c12fCount(readFault)
 		res := ""
-		ok := withWatchdog(30*time.Second, func() { res = s.run(h) })
-		after := vfs.MutCount()
+		ok := true
+		if s.run == nil {
+			ok = withWatchdog(30*time.Second, func() { _ = h.Close() })
+			h = olareg.New(c12fConf(root))
+			res = "new server"
+		} else {
+			ok = withWatchdog(30*time.Second, func() { res = s.run(h) })
+		}
+		after := c12fCount(readFault)
 		if faultStep < 0 && before < k && after >= k {
 			faultStep = i
 			for _, op := range vfs.Log() {
@@ -415,6 +440,14 @@ func c12fProperty(t *rapid.T, st *Stats) {
 		classes = append(classes, "second-fault")
 	}
 	st.Case(append([]string{fmt.Sprintf("k=%d", k)}, trace...), faultStep >= 0 && laterSameRepo, classes...)
+}
+
+// c12fCount is the shim's running count of the kind of call the fault is armed on.
+func c12fCount(reads bool) int {
+	if reads {
+		return vfs.ReadCount()
+	}
+	return vfs.MutCount()
 }
 
 func stepName(steps []c12fStep, i int) string {
